@@ -148,6 +148,7 @@ type crashCtl struct {
 	nth     int    // after this many arrivals at that gate
 	dead    map[int]bool
 	tripped bool
+	failing bool // the armed gate only fails (a refused write, a failed commit): the process lives on
 }
 
 var errCrash = errors.New("injected crash")
@@ -167,6 +168,10 @@ func (cc *crashCtl) gate(op, key string) error {
 		if cc.nth <= 0 {
 			cc.armed = ""
 			cc.tripped = true
+			if cc.failing {
+				cc.mu.Unlock()
+				return errors.New("injected: database is locked (5) (SQLITE_BUSY)")
+			}
 			cc.dead[g] = true
 			cc.mu.Unlock()
 			// The hooks roll the open transaction back when the gate fails, which is what the
@@ -208,10 +213,25 @@ func runKeygen(c *ctx) error {
 			scens = append(scens, scen{hx.H(r.Bytes(n)), uint32(r.Intn(int(maxNet[n]) + 1)), "crash", g, nth, 0, 150})
 		}
 	}
+	// one reservation attempt fails (refused write, failed commit) and the process goes on; then a restart:
+	// what was handed out before the restart is not handed out after it
+	for _, g := range []string{"AllocateKeys.write", "AllocateKeys.commit", "AllocateKeys.read"} {
+		for nth := 2; nth <= c.pick(3, 5); nth++ {
+			n := 3 + r.Intn(3)
+			scens = append(scens, scen{hx.H(r.Bytes(n)), uint32(r.Intn(int(maxNet[n]) + 1)), "failed-reservation", g, nth, 0, 240})
+		}
+	}
 	// last blocks of the key space, odd and even network ids
 	for _, nid := range []uint32{1, 2} {
 		scens = append(scens, scen{hx.H(r.Bytes(3)), nid, "end-of-space", "", 0, 1<<25 - 130, 320})
 		scens = append(scens, scen{hx.H(r.Bytes(5)), nid, "end-of-space", "", 0, 1<<25 - 45, 200})
+	}
+	// the sequences cross a power of two of the 25-bit counter field (every bit of the field is used: the
+	// identifiers issued after the crossing differ from those issued at the start)
+	for _, bit := range []uint{24, 16, 23} {
+		for _, n := range []int{3, 4, 5} {
+			scens = append(scens, scen{hx.H(r.Bytes(n)), uint32(1 + r.Intn(int(maxNet[n]))), "bit-crossing", "", 0, 1<<bit - 40, 260})
+		}
 	}
 	for i := 0; i < c.pick(4, 60); i++ {
 		n := 3 + r.Intn(3)
@@ -271,7 +291,7 @@ func runKeygen(c *ctx) error {
 				kgs = append(kgs, &kg)
 			}
 			cc.mu.Lock()
-			cc.armed, cc.nth, cc.tripped = crash, nth, false
+			cc.armed, cc.nth, cc.tripped, cc.failing = crash, nth, false, sc.Kind == "failed-reservation"
 			cc.mu.Unlock()
 			var wg sync.WaitGroup
 			workers := 8
@@ -307,8 +327,8 @@ func runKeygen(c *ctx) error {
 			}
 			fin := make(chan struct{})
 			go func() { wg.Wait(); close(fin) }()
-			if crash == "" {
-				<-fin
+			if crash == "" || sc.Kind == "failed-reservation" {
+				<-fin // (a failed reservation is retried by the dispatcher: the requests complete)
 			} else {
 				// the process "dies" at the gate: requests in flight never complete
 				deadline := time.After(5 * time.Second)
